@@ -381,6 +381,24 @@ let cmd_bfblock () =
   let d = real_cipher key and e = real_cipher_enc key in
   iter_lines (fun l -> let b = bytes_of_string (unhex l) in Printf.printf "%s %s\n" (hex_of_bytes (d b)) (hex_of_bytes (e b)))
 
+(* version : stdin "INV <game> <name> <ctrl 0|1> <alias 0|1>" lines, then "Q <game> <hex of the version string>" lines *)
+let cmd_version () =
+  let inv : (Stdlib.String.t, vdir list) Hashtbl.t = Hashtbl.create 3 in
+  let get g = try Hashtbl.find inv g with Not_found -> [] in
+  let verr = function VNotSupported -> "notsupported" | VImport -> "import" | VAssert -> "assert" | VBadNumber -> "badnumber" in
+  iter_lines (fun l ->
+    match split_ws l with
+    | ["INV"; g; name; c; a] -> Hashtbl.replace inv g (get g @ [{ vd_name = coq_string_of name; vd_controller = (c = "1"); vd_alias = (a = "1") }])
+    | ["Q"; g; hx] ->
+        let s = coq_string_of (unhex (if hx = "-" then "" else hx)) in
+        let (vg, parts) = (match g with
+          | "wows" -> (VWows, norm_wows s) | "wowp" -> (VWowp, norm_wowp s) | "wot" -> (VWot, [norm_wot s]) | _ -> failwith "game") in
+        let ps = String.concat "," (List.map (fun p -> hex_of_string (ocaml_string_of p)) parts) in
+        (match select_version vg (get g) parts with
+         | Inl sel -> Printf.printf "PARTS %s OK %s %s %s\n" ps (ocaml_string_of sel.sel_controller) (ocaml_string_of sel.sel_definitions) (if sel.sel_new_table then "new" else "old")
+         | Inr e -> Printf.printf "PARTS %s ERR %s\n" ps (verr e))
+    | _ -> failwith ("version: bad line " ^ l))
+
 (* frames : one hex stream per line -> "<tail> <type>:<timehex>:<payloadhex|-> ..." *)
 let cmd_frames () =
   iter_lines (fun l ->
@@ -394,6 +412,7 @@ let () =
   match Sys.argv.(1) with
   | "frames" -> cmd_frames ()
   | "defs" -> cmd_defs ()
+  | "version" -> cmd_version ()
   | "container" -> cmd_container ()
   | "mkcontainer" -> cmd_mkcontainer ()
   | "bfblock" -> cmd_bfblock ()
